@@ -413,16 +413,32 @@ func specialMouse(c *specialCtx) {
 		// failing and short-writing backends: an error comes back, never a panic
 		for _, failAt := range []int{1} {
 			for _, x := range []int{1, 300} {
+				// the failing call writes nothing, a few bytes, or the whole report before it fails
+				for _, progress := range []int{0, 1, 3, 1000} {
+					im.be.written = im.be.written[:0]
+					im.be.writeCalls = 0
+					im.be.writeErrAt, im.be.writeErrProgress = failAt, progress
+					err, pan := im.vt.SendMouse(0, true, 0, x, 1)
+					im.be.writeErrAt, im.be.writeErrProgress = 0, 0
+					ev := fmt.Sprintf("mode=%d enc=%d write fails after %d bytes", cb.mode, cb.enc, progress)
+					if pan != "" {
+						c.violation("mouse-write-error-panic", ev+": "+pan, ev)
+					} else if cb.mode != 0 && err == nil {
+						c.violation("mouse-write-error-lost", ev+": no error returned", ev)
+					}
+				}
+				// … also a later call, after a short first one
 				im.be.written = im.be.written[:0]
 				im.be.writeCalls = 0
-				im.be.writeErrAt = failAt
+				im.be.writeSizes = []int{2, 100}
+				im.be.writeErrAt, im.be.writeErrProgress = 2, 2
 				err, pan := im.vt.SendMouse(0, true, 0, x, 1)
-				im.be.writeErrAt = 0
+				im.be.writeErrAt, im.be.writeErrProgress, im.be.writeSizes = 0, 0, nil
 				ev := fmt.Sprintf("mode=%d enc=%d write fails", cb.mode, cb.enc)
 				if pan != "" {
 					c.violation("mouse-write-error-panic", ev+": "+pan, ev)
 				} else if cb.mode != 0 && err == nil {
-					c.violation("mouse-write-error-lost", ev+": no error returned", ev)
+					c.violation("mouse-write-error-lost", ev+" (second call, after 2 more bytes): no error returned", ev)
 				}
 				// short writes: the whole report is delivered
 				im.be.written = im.be.written[:0]
@@ -501,6 +517,15 @@ func specialKeys(c *specialCtx) {
 			fmt.Fprintf(&sb, "\x1b[>4;%dm", ts.mok)
 			setup = sb.String()
 		}
+		switch i % 11 {
+		case 5:
+			// modifyOtherKeys set and then reset by the one-parameter form; the level in force is
+			// what the model's parser makes of it
+			setup += pick(newPrng(uint64(i)), []string{"\x1b[>4;2m\x1b[>4m", "\x1b[>4;1m\x1b[>4;m", "\x1b[>4;2m\x1b[>4;0m", "\x1b[>4;2m\x1b[>4;1m"})
+		case 8:
+			// flags reached by popping more entries than were pushed (reset to 0), then set again or not
+			setup = fmt.Sprintf("\x1b[=%du\x1b[>%du\x1b[<2u", (ts.flags+3)%32, (ts.flags+8)%32) + pick(newPrng(uint64(i)), []string{"", fmt.Sprintf("\x1b[=%d;2u", ts.flags)}) + fmt.Sprintf("\x1b[>4;%dm", ts.mok)
+		}
 		if ts.app {
 			setup += "\x1b[?1h"
 		}
@@ -525,6 +550,16 @@ func specialKeys(c *specialCtx) {
 						c.violation("key-state", fmt.Sprintf("after %q the flags in force are %d, the model says %d", setup, snap.KbdFlags[act], mf), setup)
 					}
 					ts.flags = mf
+				}
+				// … and so is the modifyOtherKeys level (third view integer)
+				if f := strings.Fields(mo.lines["V"]); len(f) >= 5 {
+					var mm int
+					if _, err := fmt.Sscanf(f[4], "%d", &mm); err == nil {
+						if snap := im.vt.Snap(); len(snap.ViewInts) > 2 && snap.ViewInts[2] != mm {
+							c.violation("key-state", fmt.Sprintf("after %q the modifyOtherKeys level is %d, the model says %d", setup, snap.ViewInts[2], mm), setup)
+						}
+						ts.mok = mm
+					}
 				}
 			}
 		}
@@ -733,7 +768,8 @@ func cutAt(data []byte, cuts []int) [][]byte {
 }
 
 func specialSegmentation(c *specialCtx) {
-	prof := &profile{name: "C08", weights: withWeights(map[string]int{"textwide": 14, "badutf8": 4, "osc": 4, "sgr": 10, "query": 5, "kbd": 3, "oddcsi": 4}),
+	prof := &profile{name: "C08", weights: withWeights(map[string]int{"textwide": 14, "badutf8": 4, "osc": 4, "sgr": 10, "query": 5, "kbd": 3, "oddcsi": 4,
+		"textzero": 6, "altscreen": 4, "goto": 12, "erase": 6}), macros: 6, macroSet: []string{"alt-text-edge", "mark-after-motion", "alt-roundtrip", "wide-splice"},
 		minLen: 2, maxLen: 25, grid: 25, chunks: []int{0}}
 	master := newPrng(uint64(c.seed))
 	seeds := make([]uint64, c.n)
